@@ -347,6 +347,14 @@ class C19(Check):
                 lines.append(line)
                 exp.append(want)
                 metas.append(case)
+        # resolveImports(sheet, target) with a target that holds rules already
+        for i in range(ctx.n(150, 3000)):
+            case = V.gen_case(rng, exotic=0.0, fn_url_p=0.0, features={'cycle': 0.0,
+                                                                      'kept': 0.5 if rng.random() < 0.5 else 0.0})
+            for line, want in self.into_case(ctx, cssutils, case, rng):
+                lines.append(line)
+                exp.append(want)
+                metas.append(case)
         out = ctx.driver(lines) if ctx.model_ok else [None] * len(lines)
         for line, want, got, case in zip(lines, exp, out, metas):
             if got is None or want is None:
@@ -468,6 +476,67 @@ class C19(Check):
             # the script wrapper: parse (default fetcher), flatten, serialise with its own serializer
             if not cyc and main_text and (combine or rng.random() < 0.6):     # csscombine(cssText='') calls sys.exit
                 self.combine_case(ctx, cssutils, case, main_text, texts, rng, w, exc, stream)
+        finally:
+            cssutils.util._defaultFetcher = old
+        return res
+
+    # -- resolveImports(sheet, target): a target that holds rules already ------------------------------
+    def into_case(self, ctx, cssutils, case, rng):
+        """`cssutils.resolveImports(sheet, target)` with a target parsed by the same parser (so it has the same
+        fetcher) that holds 0-3 rules, sometimes a leading comment or an unavailable @import, at the sheet's own
+        or at another location: result tree + fetcher calls = model `resolveRules` on that target = the groups of the
+        specification added one by one (`run target`, theorem resolveRules_is_groups_added)."""
+        import cssutils.util
+        import xml.dom
+        main_text, texts = V.render_case(case, rng)
+        log, fetch, old = self.run_impl(cssutils, case, texts, main_text)
+        res = []
+        try:
+            tg = []
+            if rng.random() < 0.4:
+                tg.append(('K', '/*t*/'))
+            if rng.random() < 0.35:
+                tg.append(S.raw_import('t-missing.css', rng.choice(['all', 'print'])))
+            tg += S.gen_sheet_body(rng, n=rng.choice([0, 1, 1, 2, 3]), fn_url_p=0.0)
+            th = case['href'] if rng.random() < 0.6 else rng.choice(['http://h/other/t.css', 'http://h/base/sub/t.css'])
+            tg_text = S.r_rules(tg, rng)
+            try:
+                with time_limit(30):
+                    parser = cssutils.CSSParser(fetcher=fetch)
+                    sheet = parser.parseString(main_text, href=case['href'])
+                    target = parser.parseString(tg_text, href=th)
+            except (RecursionError, xml.dom.DOMException, OSError, TypeError, AttributeError, KeyError, IndexError):
+                return []
+            if (S.shallow(S.p_rules(sheet.cssRules, deep=False)) != S.shallow(case['main'])
+                    or S.shallow(S.p_rules(target.cssRules, deep=False)) != S.shallow(tg)):
+                ctx.count('into:render-parse-mismatch')
+                return []
+            tg_loaded = S.p_rules(target.cssRules, deep=True)
+            n0 = len(log)
+            ctx.case(key=('into', main_text, tg_text, th, tuple(sorted(texts.items()))), nontrivial=bool(tg),
+                     kind='into:%s:%s' % ('same-href' if th == case['href'] else 'other-href',
+                                          'import' if any(r[0] == 'I' for r in tg) else
+                                          'comment-first' if tg and tg[0][0] == 'K' else 'plain' if tg else 'empty'),
+                     sample={'href': case['href'], 'css': main_text, 'vfs': texts, 'target': tg_text, 'target_href': th})
+            w = {'href': case['href'], 'css': main_text, 'vfs': texts, 'target': tg_text, 'target_href': th}
+            try:
+                with time_limit(30):
+                    result = cssutils.resolveImports(sheet, target)
+                if result is not target:
+                    ctx.violate('resolveImports(sheet, target) returns the target it was given', w, {})
+                got = 'OK ' + S.wire_sheet(mid(S.p_rules(result.cssRules, deep=True)))
+            except (xml.dom.HierarchyRequestErr, ValueError, UnicodeError) as e:
+                got = show_exc(e)
+            except (RecursionError, xml.dom.DOMException, OSError, TypeError, AttributeError, KeyError,
+                    IndexError) as e:
+                ctx.violate('resolveImports returns the flattened sheet (it does not raise)', w,
+                            {'exception': repr(e)[:300]})
+                return res
+            tail = '%s %s %s %s %s' % (enc(case['href']), enc(th), S.wire_vfs(case['vfs']), S.wire_sheet(case['main']),
+                                       S.wire_sheet(mid(tg_loaded)))
+            want = '%s | %s' % (got, show_log(log[n0:]))
+            res.append(('resolveinto ' + tail, want))
+            res.append(('flatspecinto ' + tail, want))
         finally:
             cssutils.util._defaultFetcher = old
         return res
